@@ -27,7 +27,7 @@ import json
 import os
 import random
 import re
-from concurrent.futures import ProcessPoolExecutor
+from concurrent.futures import ProcessPoolExecutor, ThreadPoolExecutor
 
 from harness import tlc as T
 from harness import zmx as Z
@@ -38,7 +38,7 @@ CFG_DEFAULT = dict(
     MaxWl="= 1", PadWl="<- Pad0", PwavFirst="<- PwAfter", Types="<- BothTypes", TypeOpt="<- TypeReq",
     Curvs="<- C2", Thicks="<- T1", ObjThicks="<- ObjInf", Conics="<- K1", ParmRows="<- Rows1",
     Glasses="<- G0", ImageFree="= FALSE", Noise="<- NoNoise", MaxNoise="= 0",
-    Catalogue="<- MCCatalogue", Export="= TRUE")
+    Catalogue="<- MCCatalogue", Export="= TRUE", ExportMod="= 1")
 INVARIANTS = ["RejectsNSC", "FinishTotal", "GridExact", "SurfaceCount", "RadiusLaw", "VertexLaw", "ConicLaw", "ParmLaw", "StopLaw",
               "MediumLaw", "WaveLaw", "FieldLaw", "ApertureLaw"]
 PROPERTIES = ["UnknownStutters", "BlockFrame", "SurfPushes"]
@@ -107,19 +107,20 @@ def file_prints(out):
     return [ln for ln in out.splitlines() if ln.startswith('"FILE ')]
 
 
-def run_grid(ctx, name, over, counts, timeout=600):
+def run_grid(ctx, name, over, workers=16, timeout=800):
     cfg = write(ctx, name + ".cfg", cfg_text(**over))
-    r = ctx.model_check("MC_Zemax", cfg, workers=16, timeout=timeout, args=["-coverage", "1"])
+    r = ctx.model_check("MC_Zemax", cfg, workers=workers, timeout=timeout, args=["-coverage", "1"])
     cov = coverage_counts(r.out)
-    for k, v in cov.items():
-        counts[k] = counts.get(k, 0) + v
     files = file_prints(r.out)
-    if cov.get("End", -1) != len(files):
-        raise T.MachineryError("%s: TLC took End %s times but printed %d files" % (name, cov.get("End"), len(files)))
+    mod = int(over.get("ExportMod", "= 1").split()[-1])
+    ends = cov.get("End", -1)
+    if (mod == 1 and ends != len(files)) or len(files) > ends or len(files) * mod * 4 < ends:
+        raise T.MachineryError("%s: TLC took End %s times but printed %d files (1 in %d)" % (name, ends, len(files), mod))
+    ctx.extra.setdefault("files_in_grid", {})[name] = ends
     if not files:
         raise T.MachineryError("%s: the grid contains no complete file" % name)
     ctx.extra.setdefault("files_enumerated", {})[name] = len(files)
-    return files
+    return files, cov
 
 
 def run_sim(ctx, name, over, num, seed, depth=900, timeout=600):
@@ -246,6 +247,12 @@ def _replay_one(args):
 
 Z_KEYWORDS = {"MODE", "ENPD", "FNUM", "OBNA", "GCAT", "FTYP", "XFLN", "YFLN", "WAVM", "PWAV", "SURF", "TYPE",
               "CURV", "DISZ", "CONI", "PARM", "GLAS", "STOP"}
+
+
+def _warm(i):
+    import optiland.fileio          # noqa: F401  (import cost paid once per worker)
+    import optiland.materials       # noqa: F401
+    return os.getpid()
 
 
 def _replay_chunk(jobs):
@@ -386,6 +393,9 @@ def calibrate_compare(ctx, raws, rnd):
         if used >= 4:
             break
     if used < 2:
+        if ctx.violations:             # nothing is accepted because the code is broken: that is the verdict
+            ctx.skip("calibration of the comparison: no accepted file to corrupt")
+            return
         raise T.MachineryError("calibration: fewer than two accepted files available")
     ctx.extra["calibration_compare"] = {"files": used, "mutations_rejected": muts}
 
@@ -445,14 +455,14 @@ def trace_jobs(ctx, rnd, n_random):
     return texts, jobs
 
 
-def trace_validation(ctx, texts, recs):
+def trace_validation(ctx, texts, recs, calibrate=True):
     events = [r[0] for r in recs]
     # calibration: corrupted copies of accepted-looking events must be rejected with the right clause
     cal = []
     nid = len(events)
     want = {}
     for ev, obs, _ in recs:
-        if ev["exc"] or len(ev["post"]["surf"]) < 3 or len(cal) >= 40:
+        if not calibrate or ev["exc"] or len(ev["post"]["surf"]) < 3 or len(cal) >= 40:
             continue
         ps = ev["post"]["surf"]
 
@@ -482,9 +492,10 @@ def trace_validation(ctx, texts, recs):
     # only corruptions of records the spec accepts count (a record that already fails may be "repaired" by one)
     eff = {i: code for i, (code, base) in want.items() if not verdicts[base]}
     missed = [i for i, code in eff.items() if code not in verdicts[i]]
-    if missed or len(eff) < 10:
+    if missed or (len(eff) < 10 and not ctx.violations and calibrate):
         raise T.MachineryError("calibration: Trace_Zemax accepted %d corrupted record(s) (of %d effective)" % (len(missed), len(eff)))
-    ctx.extra["calibration_trace"] = {"corrupted_events": len(eff), "rejected": len(eff) - len(missed)}
+    if calibrate:
+        ctx.extra["calibration_trace"] = {"corrupted_events": len(eff), "rejected": len(eff) - len(missed)}
     by_kind = {}
     for (kind, text), (ev, obs, excmsg) in zip(texts, recs):
         by_kind[kind.split(":")[0]] = by_kind.get(kind.split(":")[0], 0) + 1
@@ -514,6 +525,15 @@ def trace_validation(ctx, texts, recs):
     ctx.extra["trace_events"] = by_kind
 
 
+def replay(ctx, rep):
+    """./check C20 --replay <file>: load the recorded text again and let Trace_Zemax judge it."""
+    r = rep.get("repro", {})
+    text = r["text"]
+    enc = "utf-16" if str(r.get("encoding", "")).startswith("utf-16") else "utf-8"
+    recs = [_load_for_trace((0, text, enc, ctx.work))]
+    trace_validation(ctx, [(r.get("source", "replay"), text)], recs, calibrate=False)
+
+
 # -------------------------------------------------------------------- main ----
 def main(ctx):
     quick = ctx.tier == "quick"
@@ -524,14 +544,13 @@ def main(ctx):
     # (a) surfaces, every block free including the image block (exposes what happens to the last block)
     grids.append(("surf_free", dict(MaxSurf="= 3", Types="<- BothTypes", ParmRows="<- Rows2",
                                      Curvs="<- C2" if quick else "<- C3", Thicks="<- T1" if quick else "<- T2",
-                                     ObjThicks="<- ObjInf" if quick else "<- Obj2", Conics="<- K1", Glasses="<- G2", ImageFree="= TRUE"),
-                  700 if quick else 15000))
+                                     ObjThicks="<- ObjInf" if quick else "<- Obj2", Conics="<- K1", Glasses="<- G2", ImageFree="= TRUE", ExportMod="= 1" if quick else "= 16"),
+                  500 if quick else 6000))
     # (b) four surfaces, plain image block, optional TYPE line
     grids.append(("surf_plain", dict(MinSurf="= 3", MaxSurf="= 4" if quick else "= 5", Types="<- BothTypes",
                                       TypeOpt="<- TypeMaybe", ParmRows="<- Rows1", Curvs="<- C2", Thicks="<- T1",
-                                      Conics="<- NoneAtAll" if quick else "<- K1", Glasses="<- G0" if quick else "<- GQ",
-                                      ObjThicks="<- Obj2"),
-                  None if quick else 15000))
+                                      Conics="<- NoneAtAll" if quick else "<- K1", Glasses="<- G0", ObjThicks="<- Obj2", ExportMod="= 1" if quick else "= 16"),
+                  None if quick else 5000))
     # (c) glasses x catalogue lists
     grids.append(("glass", dict(MinSurf="= 3", MaxSurf="= 3", Types="<- StdOnly", Curvs="<- C1", Conics="<- NoneAtAll",
                                  Glasses="<- G6", GcatLists="<- Gcat5"), None))
@@ -540,14 +559,14 @@ def main(ctx):
                Glasses="<- G0" if quick else "<- GQ")
     grids.append(("header_ap", dict(hdr, Modes="<- BothModes", Apertures="<- Ap3" if quick else "<- Ap6", FieldTypes="<- FtBoth",
                                      Noise="<- Noise2" if quick else "<- Noise4", MaxNoise="= 1", ObjThicks="<- Obj2"),
-                  450 if quick else None))
+                  300 if quick else 3000))
     # (e) fields: 1-3 declared, padded lines, repeated and unsorted pairs
     grids.append(("header_fields", dict(hdr, MaxFld="= 3", FieldPairs="<- FP3" if quick else "<- FP4",
                                          PadFld="<- Pad01" if quick else "<- Pad02", FieldTypes="<- FtBoth", Glasses="<- G0"),
-                  350 if quick else None))
+                  250 if quick else 2500))
     # (f) wavelengths: 1-3 declared, padded WAVM lines, any primary, PWAV before or after
     grids.append(("header_waves", dict(hdr, MaxWl="= 3", Waves="<- W2", PadWl="<- Pad02", PwavFirst="<- PwBoth"),
-                  350 if quick else None))
+                  250 if quick else 2500))
     kwcount = {}
     stats = {"files": 0, "loads": 0, "agree": 0, "paraxial_compared": 0, "paraxial_reference_raises": 0,
              "by_surfaces": {}, "nsc_rejected_with": {}}
@@ -555,22 +574,29 @@ def main(ctx):
     all_exhaustive = True
     pending = []
     pool = ProcessPoolExecutor(max_workers=16)
+    # all worker processes are forked here, before any thread exists (a fork while another thread
+    # is launching a JVM would inherit that JVM's pipe ends)
+    list(pool.map(_warm, range(32)))
+    tlcs = ThreadPoolExecutor(max_workers=3)          # three TLC runs at a time, six workers each
     try:
-        for name, over, limit in grids:
-            raws = run_grid(ctx, name, over, counts)
-            futs, used = submit_replay(ctx, pool, raws, name, limit=limit, rnd=rnd)   # replayed while TLC runs the next grid
-            if len(used) < len(raws):
-                all_exhaustive = False
-            pending.append((futs, used))
         # (g) long files by simulation: up to 30 surfaces, 12 wavelengths, all keywords, noise
         sim_over = dict(MaxSurf="= 30", Apertures="<- Ap6", GcatLists="<- Gcat5", FieldTypes="<- FtBoth",
                         FieldPairs="<- FP6", MaxFld="= 6", PadFld="<- Pad02", Waves="<- W4", MaxWl="= 12",
                         PadWl="<- Pad02", PwavFirst="<- PwBoth", Types="<- BothTypes", TypeOpt="<- TypeMaybe",
                         Curvs="<- C5", Thicks="<- T4", ObjThicks="<- Obj2", Conics="<- K2", ParmRows="<- RowsFullOnly",
                         Glasses="<- G2", Noise="<- Noise4", MaxNoise="= 6")
-        raws = run_sim(ctx, "simulate", sim_over, 60 if quick else 1500, ctx.seed + 11)
-        pending.append(submit_replay(ctx, pool, raws, "simulate"))
-        tjobs = trace_jobs(ctx, rnd, 100 if quick else 1500)
+        gf = [(name, limit, tlcs.submit(run_grid, ctx, name, over, 6)) for name, over, limit in grids]
+        sf = tlcs.submit(run_sim, ctx, "simulate", sim_over, 40 if quick else 800, ctx.seed + 11)
+        for name, limit, fut in gf:
+            raws, cov = fut.result()
+            for k, v in cov.items():
+                counts[k] = counts.get(k, 0) + v
+            futs, used = submit_replay(ctx, pool, raws, name, limit=limit, rnd=rnd)   # replayed while TLC goes on
+            if len(used) < len(raws) or ctx.extra["files_in_grid"][name] != len(raws):
+                all_exhaustive = False
+            pending.append((futs, used))
+        pending.append(submit_replay(ctx, pool, sf.result(), "simulate"))
+        tjobs = trace_jobs(ctx, rnd, 80 if quick else 1500)
         tfuts = [pool.submit(_load_chunk, tjobs[1][i:i + 10]) for i in range(0, len(tjobs[1]), 10)]
         for futs, used in pending:
             results = collect(futs)
@@ -578,6 +604,7 @@ def main(ctx):
             accepted_pool += [used[r["idx"]] for r in results if not r["mis"] and r["n"] >= 3][:40]
         recs = collect(tfuts)
     finally:
+        tlcs.shutdown(wait=True, cancel_futures=True)
         pool.shutdown(wait=True, cancel_futures=True)
     ctx.exhaustive = all_exhaustive
     ctx.extra["replay"] = stats
@@ -587,7 +614,7 @@ def main(ctx):
               [k for k in Z_KEYWORDS | {"UNKNOWN"} if kwcount.get(k, 0) == 0]
     if missing:
         raise T.MachineryError("generator never exercised: %s" % sorted(set(missing)))
-    if stats["agree"] == 0 or stats["paraxial_compared"] == 0:
+    if (stats["agree"] == 0 or stats["paraxial_compared"] == 0) and not ctx.violations:
         raise T.MachineryError("no file agreed completely - the comparison is vacuous")
     calibrate_compare(ctx, accepted_pool, rnd)
     # ---- code -> spec
